@@ -51,6 +51,12 @@ func workerC04e(t *testing.T, out *WorkerOut) {
 			out.Capped++
 		}
 		out.Shapes[res.Shape]++
+		if *flagHashes {
+			if out.Hashes == nil {
+				out.Hashes = map[string]string{}
+			}
+			out.Hashes[fmt.Sprint(out.Runs)] = res.TraceHash
+		}
 		if nontrivial(*flagProp, res) {
 			out.NonTriv++
 			shapes[res.Shape] = true
